@@ -10,8 +10,52 @@ use vreplay_prom::*;
 
 static MD: Metadata<'static> = Metadata::new("c15", Level::INFO, None);
 
+/// count and sum of the summary series `name` in a rendering
+fn count_sum(text: &str, name: &str) -> (Option<f64>, Option<f64>) {
+    let lines = check_exposition(text).unwrap_or_default();
+    let (mut c, mut s) = (None, None);
+    for l in &lines {
+        if let Line::Sample(x) = l {
+            if x.name == format!("{}_count", name) { c = x.value.parse().ok(); }
+            if x.name == format!("{}_sum", name) { s = x.value.parse().ok(); }
+        }
+    }
+    (c, s)
+}
+
+fn ageing(plan: &Plan) -> ! {
+    let inp = |k: &str| plan.inputs.get(k).copied().unwrap_or(0);
+    let (dt1, dt2) = (inp("dt1"), inp("dt2"));
+    let (clock, mock) = quanta::Clock::mock();
+    let mut v: Vec<&str> = vec![];
+    let renders = quanta::with_clock(&clock, || {
+        let rec = PrometheusBuilder::new().build_recorder();
+        let handle = rec.handle();
+        let h = rec.register_histogram(&Key::from_name("c15_a"), &MD);
+        mock.increment(1_000_000_000u64);
+        h.record(5.0);
+        let r1 = handle.render();
+        mock.increment(dt1);
+        handle.run_upkeep();
+        mock.increment(dt2);
+        handle.run_upkeep();
+        let r2 = handle.render();
+        h.record(6.0);
+        let r3 = handle.render();
+        vec![r1, r2, r3]
+    });
+    let want = [(1.0, 5.0), (1.0, 5.0), (2.0, 11.0)];
+    for (i, r) in renders.iter().enumerate() {
+        let (c, s) = count_sum(r, "c15_a");
+        println!("rendering {}: _count={:?} _sum={:?} (expected {} / {})", i + 1, c, s, want[i].0, want[i].1);
+        if c != Some(want[i].0) || s != Some(want[i].1) { v.push("count_covers_all_samples_in_every_rendering"); }
+    }
+    finish(&v, plan)
+}
+
 fn main() {
     let plan = load_plan(&std::env::args().nth(1).expect("plan"));
+    if plan.scenario == "c15_ageing" { ageing(&plan); }
     let inp = |k: &str| plan.inputs.get(k).copied().unwrap_or(0);
     let (n, d, now, k, batch) = (inp("n"), inp("d"), inp("now"), inp("k") as usize, inp("batch") != 0);
     let ts: Vec<u64> = (0..k).map(|i| inp(&format!("ts{}", i))).collect();
